@@ -221,6 +221,12 @@ Proof.
 Qed.
 
 (* ================================================================ round trip *)
+Lemma startswith_hasc_early s : startswith s "/" = true -> hasc "/" s = true.
+Proof.
+  destruct s as [|c s]; [discriminate|]. unfold startswith. cbn [prefixb hasc]. intros H.
+  apply andb_true_iff in H as [H _]. rewrite Ascii.eqb_sym, H. reflexivity.
+Qed.
+
 Definition wf_special (p : pref) : bool :=
   let '(st, prod, file, meth) := p in
   match st, file with
@@ -230,9 +236,20 @@ Definition wf_special (p : pref) : bool :=
   end.
 
 (* the generator-style grammar of well-formed references: parts from which a reference is BUILT *)
+(* an absolute path with a directory part: /dir[/dir...]/file.  The guard is exact (see Refuted.v, finding F9a):
+   the directory starts at the root and does not END with a separator (so it is neither empty nor the root itself);
+   doubled separators INSIDE the directory are harmless *)
+Definition wf_abs (p : pref) : bool :=
+  let '(st, prod, file, meth) := p in
+  match st, file with
+  | None, Some f => startswith prod "/" && negb (ends_slash prod) &&
+                    nocolon prod && nocolon f && nocolon meth && negb (hasc "/" f)
+  | _, _ => false
+  end.
+
 Definition wf_parts (p : pref) : bool :=
   (wf_component p && let '(st, prod, _, _) := p in match st with Some _ => negb (var_search prod) | None => true end)
-  || wf_special p.
+  || wf_special p || wf_abs p.
 
 Lemma special_not_abs t0 rest : in_strs t0 Special = true -> startswith (t0 ++ String "/" rest) "/" = false.
 Proof.
@@ -255,9 +272,87 @@ Proof.
   unfold not_component. rewrite Hsl. cbn [negb]. rewrite andb_true_r, orb_true_r. reflexivity.
 Qed.
 
+(* ---- absolute paths: os.path.split of dir ++ "/" ++ file *)
+Lemma all_slash_app_false d x : ends_slash d = false -> d <> "" -> all_chars is_slash (d ++ x) = false.
+Proof.
+  induction d as [|c d IH]; [congruence|]. intros E _. destruct d as [|c' d'].
+  - cbn in E. cbn. rewrite E. reflexivity.
+  - cbn [append all_chars]. cbn [append all_chars] in IH. rewrite IH; [apply andb_false_r|exact E|discriminate].
+Qed.
+
+Lemma rstrip_cons c s : all_chars is_slash s = false -> rstrip_slash (String c s) = String c (rstrip_slash s).
+Proof. intros H. cbn [rstrip_slash]. rewrite H, andb_false_r. reflexivity. Qed.
+
+Lemma rstrip_app_slash d : ends_slash d = false -> rstrip_slash (d ++ "/") = d.
+Proof.
+  induction d as [|c d IH]; [reflexivity|]. intros E. destruct d as [|c' d'].
+  - cbn in E. cbn. rewrite E. reflexivity.
+  - change (String c (String c' d') ++ "/") with (String c (String c' d' ++ "/")).
+    rewrite rstrip_cons by (apply all_slash_app_false; [exact E|discriminate]).
+    rewrite (IH E). reflexivity.
+Qed.
+
+Lemma head_raw_app d f : hasc "/" f = false -> head_raw (d ++ String "/" f) = d ++ "/".
+Proof.
+  intros F. induction d as [|c d IH].
+  - cbn. rewrite F. reflexivity.
+  - cbn [append head_raw]. rewrite hasc_app. cbn [hasc]. rewrite Ascii.eqb_refl, orb_true_r, IH. reflexivity.
+Qed.
+
+Lemma last_seg_app d f : hasc "/" f = false -> last_seg (d ++ String "/" f) = f.
+Proof.
+  intros F. induction d as [|c d IH].
+  - cbn. rewrite F. reflexivity.
+  - cbn [append last_seg]. rewrite hasc_app. cbn [hasc]. rewrite Ascii.eqb_refl, orb_true_r, IH. reflexivity.
+Qed.
+
+Lemma os_split_app d f :
+  d <> "" -> ends_slash d = false -> hasc "/" f = false -> os_split (d ++ String "/" f) = (d, f).
+Proof.
+  intros N E F. unfold os_split. rewrite (head_raw_app _ _ F), (last_seg_app _ _ F).
+  rewrite (all_slash_app_false d "/" E N), (rstrip_app_slash d E). reflexivity.
+Qed.
+
+Lemma wf_abs_inv st prod file meth :
+  wf_abs (st, prod, file, meth) = true ->
+  st = None /\ exists f, file = Some f /\ startswith prod "/" = true /\ ends_slash prod = false /\
+  hasc ":" prod = false /\ hasc ":" f = false /\ hasc ":" meth = false /\ hasc "/" f = false.
+Proof.
+  unfold wf_abs, nocolon. destruct st; [discriminate|]. destruct file as [f|]; [|discriminate]. intros H.
+  repeat (apply andb_true_iff in H as [H ?]). repeat match goal with X : negb _ = true |- _ => apply negb_true_iff in X end.
+  split; [reflexivity|]. exists f. repeat split; assumption.
+Qed.
+
+Lemma startswith_nonempty s : startswith s "/" = true -> s <> "".
+Proof. intros H ->. discriminate. Qed.
+
+Lemma startswith_app s t : startswith s "/" = true -> startswith (s ++ t) "/" = true.
+Proof. destruct s; [discriminate|]. unfold startswith. cbn. exact (fun H => H). Qed.
+
+Lemma parse_data_abs prod f meth :
+  wf_abs (None, prod, Some f, meth) = true ->
+  parse_data (compile_ref prod (Some f) meth None) = Some (prod, Some f, meth).
+Proof.
+  intros W. apply wf_abs_inv in W as (_ & f' & E & A & En & Cp & Cf & Cm & Sf). inversion E; subst f'.
+  unfold compile_ref, parse_data, split_colon.
+  replace (prod ++ "/" ++ f ++ ":" ++ meth) with ((prod ++ String "/" f) ++ String ":" meth)
+    by (rewrite append_assoc; reflexivity).
+  rewrite split1_app by (rewrite hasc_app; cbn [hasc]; rewrite Cp, Cf; reflexivity).
+  rewrite Cm, (startswith_app _ _ A), (os_split_app _ _ (startswith_nonempty _ A) En Sf). reflexivity.
+Qed.
+
+Lemma roundtrip_abs p idx ad sf : wf_abs p = true -> parse_full (print_pref p) idx ad sf = Some p.
+Proof.
+  destruct p as [[[st prod] file] meth]. intros W. pose proof (wf_abs_inv _ _ _ _ W) as (-> & f & -> & A & _).
+  unfold print_pref, parse_full. rewrite (parse_data_abs _ _ _ W).
+  unfold parse_producer. rewrite A. unfold not_component. rewrite (startswith_hasc_early _ A). cbn [negb andb].
+  rewrite orb_true_r. reflexivity.
+Qed.
+
 Theorem roundtrip p ad sf : wf_parts p = true -> parse_full (print_pref p) None ad sf = Some p.
 Proof.
-  unfold wf_parts. intros H. apply orb_true_iff in H as [H|H]; [|apply roundtrip_special; exact H].
+  unfold wf_parts. intros H. apply orb_true_iff in H as [H|H]; [|apply roundtrip_abs; exact H].
+  apply orb_true_iff in H as [H|H]; [|apply roundtrip_special; exact H].
   destruct p as [[[st prod] file] meth]. apply andb_true_iff in H as [W V].
   unfold print_pref. rewrite (parse_full_print _ _ _ _ _ _ _ W).
   destruct st as [n|].
